@@ -17,6 +17,8 @@ logging.getLogger("pymemcache.client.ext.aws_ec_client").disabled = True   # its
 
 PROPERTY = "C19"
 LEVEL = "exploration"
+# parts repeated in a child interpreter started with -O and with warnings turned into errors (vlib/runner.py, MODES)
+MODE_PARTS = {"OW": ['reply-segmentations', 'fixed-histories']}
 RULE = ("history = a configuration endpoint and up to 8 node servers behind one fake network; construct the AWS client, "
         "then 0-5 reconfigure_nodes() after the advertised list changed (scale up, scale down, replace, reorder; 1-6 "
         "nodes with distinct host names, IPs and ports), use_vpc on/off, use_pooling on/off; between reconfigurations "
